@@ -1078,6 +1078,12 @@ def trlog(T, check=True, twist=False):
                 S = trlog(R, check=False)  # recurse
                 w = base.vex(S)
                 theta = base.norm(w)
+                if theta == 0:
+                    # rotation part is the identity to within rounding: pure translation
+                    if twist:
+                        return np.r_[t, 0, 0, 0]
+                    else:
+                        return base.Ab2M(np.zeros((3, 3)), t)
                 Ginv = np.eye(3) - S / 2 + (1 / theta - 1 / math.tan(theta / 2) / 2) / theta * S @ S
                 v = Ginv @ t
                 if twist:
